@@ -222,7 +222,8 @@ PROPS = {
                 "oracle-legal move; on rejection Engine.Position() and every board observable are unchanged. Thorough adds native "
                 "coverage-guided fuzzing of the same three oracles. Non-trivial = distinct strings that pass the first syntactic gate "
                 "(six space-separated fields / 4-5 runes), i.e. reach the arithmetic. evaluations = strings tried. "
-                "C19/parallel: 2-8 goroutines decode different strings 200 times each at the same time; each must decode as it does alone. C19/engineseq contains Reset with arbitrary strings (hostile FEN text, well-formed FENs of positions with the opponent in check, valid FENs): rejected means nothing changes, accepted means the standard form of the string is the game.",
+                "C19/parallel: 2-8 goroutines decode different strings 200 times each at the same time; each must decode as it does alone. C19/engineseq contains Reset with arbitrary strings (hostile FEN text, well-formed FENs of positions with the opponent in check, valid FENs): rejected means nothing changes, accepted means the standard form of the string is the game. "
+                "Move strings include a man moving onto a man of its own side (the king-onto-rook way of writing castling among them), in both letter cases.",
         "assumptions": COMMON_ASSUMPTIONS + ["both letter cases of file and promotion letters denote the same move (the parsers accept both by design)"],
         "level_text": "Exploration: ~140k generated strings per quick run, structured to pass the syntactic gates and reach the "
                       "square arithmetic, each judged by a round-trip / well-formedness / legality oracle; thorough adds ~5 min of "
